@@ -269,6 +269,73 @@ def parse_or_none(src):
 
 # ---------------------------------------------------------------------------- the stages
 
+def logical_lines(text):
+    """(depth, number of `;`) of every logical line of a source text, as CPython's tokenizer reads it"""
+    import io
+    import tokenize
+    out, depth, cur = [], 0, None
+    for tok in tokenize.generate_tokens(io.StringIO(text).readline):
+        if tok.type == tokenize.INDENT:
+            depth += 1
+        elif tok.type == tokenize.DEDENT:
+            depth -= 1
+        elif tok.type == tokenize.NEWLINE:
+            if cur is not None:
+                out.append(tuple(cur))
+            cur = None
+        elif tok.type in (tokenize.NL, tokenize.COMMENT, tokenize.ENDMARKER):
+            if tok.type == tokenize.NL and cur is None:
+                out.append(('blank', 0))
+        else:
+            if cur is None:
+                cur = [depth, 0]
+            if tok.type == tokenize.OP and tok.string == ';':
+                cur[1] += 1
+    if cur is not None:
+        out.append(tuple(cur))
+    return out
+
+
+def layout_check(ctx, keep, stage):
+    """T02.4 / T02.5 on the same modules: their hypotheses hold (`okL`, `textOK`), and the layout specification `emitModule`
+    (depth and number of `;` of every line) is how CPython's tokenizer reads the text the real printer wrote"""
+    reqs, meta = [], []
+    for ident, src, tree, impl in keep:
+        if impl.startswith('EXC:'):
+            continue
+        try:
+            reqs.append('layout.check ' + pyast.enc_module(tree))
+        except (pyast.OutOfModel, RecursionError):
+            continue
+        meta.append((ident, src, impl))
+    answers = ctx.driver.ask(reqs) if reqs else []
+    unmet = diffs = lines = 0
+    for (ident, src, impl), ans in zip(meta, answers):
+        if not ans.startswith('ok '):
+            ctx.add_broken('correspondence', 'layout:%s:%s' % (stage, ident), 'driver answered %r' % ans[:100])
+            continue
+        parts = ans[3:].split()
+        if parts[0] != '1':
+            unmet += 1
+            ctx.add_broken('hypothesis', 'layout:%s:%s' % (stage, ident), 'okL / textOK does not hold for %r: T02.4 says nothing about it' % src[:300])
+            continue
+        model = [tuple(int(x) for x in p.split(':')) for p in parts[1:]]
+        if not impl.strip() and model == [(0, 0)]:
+            continue                    # an empty module: no logical line at all
+        try:
+            real = logical_lines(impl)
+        except Exception as e:
+            ctx.bump('layout', 'tokenize:' + e.__class__.__name__)
+            continue
+        lines += len(real)
+        ctx.bump('layout_max_depth', min(max([d for d, _ in model] or [0]), 6))
+        if real != model:
+            diffs += 1
+            ctx.add_broken('correspondence', 'layout:%s:%s' % (stage, ident),
+                           'the layout specification gives lines (depth, semicolons) %r, the tokenizer reads %r from %r' % (model[:12], real[:12], impl[:300]))
+    ctx.stage('layout:' + stage, modules=len(meta), hypotheses_unmet=unmet, logical_lines=lines, diffs=diffs)
+
+
 def correspond_and_check(ctx, items, stage):
     """items: list of (id, source, tree). Model print vs ModulePrinter print; real round trip."""
     from python_minifier.module_printer import ModulePrinter
@@ -319,6 +386,7 @@ def correspond_and_check(ctx, items, stage):
             if why2 and why2 != 'recursion':
                 ctx.add_violation({'input': {'source': src}, 'what': why2, 'found_by': stage, 'oracle': 'roundtrip',
                                    'shapes': shapes_of(src)})
+    layout_check(ctx, keep, stage)
     if keep:
         ctx.sample({'stage': 'unparse:' + stage, 'id': keep[-1][0], 'source': keep[-1][1][:200], 'model_text': (sexp.dec_str(answers[-1][3:])[:200] if answers[-1].startswith('ok ') else answers[-1])})
     ctx.stage('unparse:' + stage, cases=len(keep), diffs=diffs)
